@@ -441,12 +441,21 @@ def run(chk, repo, tier):
     sb = cs.methods.get('subs')
     if sb is None:
         raise AnalysisError('CompartmentalSystem.subs not found')
-    loops = [n for n in walk_no_nested(sb.node) if isinstance(n, (ast.For, ast.comprehension))]
+    # the loops may sit in subs itself or in a (private) builder method it calls on its working builder
+    scope6 = [sb.node]
+    for c in calls_in(sb.node):
+        if isinstance(c.func, ast.Attribute) and c.func.attr.startswith('_') and not c.func.attr.startswith('__'):
+            h = cbc.methods.get(c.func.attr)
+            if h is not None:
+                scope6.append(h.node)
+    loops = [n for sc_ in scope6 for n in walk_no_nested(sc_) if isinstance(n, (ast.For, ast.comprehension))]
     seen_edges = seen_nodes = False
     for n in loops:
         txt = unparse(n.iter)
         is_edges = 'edges' in txt
-        is_nodes = '_comps' in txt or '.nodes' in txt
+        is_nodes = '_comps' in txt or '.nodes' in txt or (
+            isinstance(n.iter, ast.Name) and any('_comps' in unparse(a_) or '.nodes' in unparse(a_)
+                                                 for c_ in calls_in(sb.node) for a_ in c_.args))
         if not (is_edges or is_nodes):
             continue
         seen_edges |= is_edges
